@@ -504,3 +504,49 @@ func VerifC13WrappedEOF() {
 		vassert(errors.Is(rerr, c13WrappedEOF), "and the original error can be recovered")
 	}
 }
+
+// Node code that is evaluated lazily inside the node's output stream (a conversion the node put on its stream) panics.
+// Whether a forwarding goroutine sits between the node and the reader (fan-out to two successors) or the stream reaches
+// the caller directly (single node), the panic surfaces as an error item - it never escapes from the caller's Recv.
+func VerifC13LazyStreamPanic() {
+	ctx := context.Background()
+	vcfg("fifo", 1)
+	vcfg("selectfirst", 1)
+	g := NewGraph[string, string]()
+	_ = g.AddLambdaNode("n", TransformableLambda(func(ctx context.Context, in *schema.StreamReader[string]) (*schema.StreamReader[string], error) {
+		return schema.StreamReaderWithConvert(in, func(s string) (string, error) {
+			var m map[string]int
+			m[s] = 1 // panics: assignment to entry in nil map
+			return s, nil
+		}), nil
+	}))
+	_ = g.AddEdge(START, "n")
+	if vchoose("successor", 2) == 1 {
+		_ = g.AddLambdaNode("next", TransformableLambda(func(ctx context.Context, in *schema.StreamReader[string]) (*schema.StreamReader[string], error) {
+			return in, nil
+		}))
+		_ = g.AddEdge("n", "next")
+		_ = g.AddEdge("next", END)
+	} else {
+		_ = g.AddEdge("n", END)
+	}
+	r, err := g.Compile(ctx)
+	vassert(err == nil, "graph compiles")
+	sr, rerr := r.Stream(ctx, "x")
+	if rerr != nil {
+		return // surfaced as an error of the run
+	}
+	got := false
+	for i := 0; i < 4; i++ {
+		_, e := sr.Recv()
+		if e == io.EOF {
+			break
+		}
+		if e != nil {
+			got = true
+			break
+		}
+	}
+	sr.Close()
+	vassert(got, "the panic of the node's lazily evaluated stream code arrives as an error item")
+}
